@@ -2,6 +2,7 @@ package main
 
 import (
 	"fmt"
+	"os"
 	"go/token"
 	"go/types"
 	"sort"
@@ -87,7 +88,7 @@ func (c *Ctx) ruleBinarySearch(rule string) {
 			return
 		}
 		bo, ok := iff.Cond.(*ssa.BinOp)
-		if !ok || (bo.Op != token.LSS && bo.Op != token.GTR) {
+		if !ok || (bo.Op != token.LSS && bo.Op != token.GTR && bo.Op != token.LEQ && bo.Op != token.GEQ) {
 			return
 		}
 		probeLeft := isProbe(bo.X) && x.Origin(bo.Y) == sal
@@ -95,9 +96,25 @@ func (c *Ctx) ruleBinarySearch(rule string) {
 		if !probeLeft && !probeRight {
 			return
 		}
+		if bo.Op == token.LEQ || bo.Op == token.GEQ {
+			// `<=` / `>=` split like `<` / `>` only where equality has been excluded: the
+			// test must lie on the not-equal edge of the exact-hit test
+			excluded := false
+			for _, g := range x.GuardsOf(iff.Block()) {
+				if e, isB := g.Cond.(*ssa.BinOp); isB && e.Op == token.EQL && !g.Pol {
+					if (isProbe(e.X) && x.Origin(e.Y) == sal) || (isProbe(e.Y) && x.Origin(e.X) == sal) {
+						excluded = true
+					}
+				}
+			}
+			if !excluded {
+				why = "re[mid].Salience is compared with <= / >= although equality has not been handled before"
+				return
+			}
+		}
 		// "probe < target" holds on which edge?
 		smallerEdge := 0
-		if (bo.Op == token.GTR && probeLeft) || (bo.Op == token.LSS && probeRight) {
+		if ((bo.Op == token.GTR || bo.Op == token.GEQ) && probeLeft) || ((bo.Op == token.LSS || bo.Op == token.LEQ) && probeRight) {
 			smallerEdge = 1
 		}
 		upd := func(edge int) (cell *ssa.Alloc, delta int64) {
@@ -286,10 +303,68 @@ func (c *Ctx) mergeModel(rule string, f *ssa.Function) *mergeSummary {
 		c.Check(rule, key+"#working-copies", false, f.Pos(), "working copies (a local name map looked up by the new rule's name, a local sorted list, a local name->position index) not found")
 		return sum
 	}
-	outer := listCells[0]
-	for _, l := range listCells {
-		if l.Pos() < outer.Pos() {
-			outer = l
+	// the working list: the local that receives the complete copy of the installed list
+	// (element by element over the whole list, copy(), or append onto an empty slice)
+	var outer *ssa.Alloc
+	okCopyList, okLen := false, false
+	isInstalledList := func(v ssa.Value) bool {
+		b, is := x.isFieldLoad(v, "KnowledgeContext", "SortRules")
+		return is && !x.freshKc(b)
+	}
+	whole := func(v ssa.Value) bool {
+		_, lo, hi := x.sliceInterval(v)
+		base, _, _ := x.sliceInterval(v)
+		return lo.equal(constForm(0)) && hi.equal(x.symLen(base))
+	}
+	madeWithLen := func(cell *ssa.Alloc) bool {
+		for _, st := range x.stores[cell] {
+			if ms, ok := x.Origin(st.Val).(*ssa.MakeSlice); ok {
+				if args, isLen := builtinCall(x.Origin(ms.Len), "len"); isLen && isInstalledList(args[0]) {
+					return true
+				}
+			}
+		}
+		return false
+	}
+	eachInstr(f, func(i ssa.Instruction) {
+		if L.Blocks[i.Block()] {
+			return
+		}
+		switch t := i.(type) {
+		case *ssa.Store:
+			if ia, ok := t.Addr.(*ssa.IndexAddr); ok {
+				if cell := x.Cell(ia.X); cell != nil && isListCell(cell) {
+					if s, _, isR := x.rangedSlice(t.Val); isR && isInstalledList(s) && whole(s) {
+						// position k of the copy receives position k of the installed list
+						if x.sameIndex(ia, t.Val) {
+							outer, okCopyList, okLen = cell, true, madeWithLen(cell)
+						}
+					}
+				}
+				return
+			}
+			if cell, ok := x.ResolveAddr(t.Addr).(*ssa.Alloc); ok && isListCell(cell) {
+				// append([]T(nil) / s[:0] of a fresh slice, installed...)
+				if args, isApp := builtinCall(t.Val, "append"); isApp && len(args) == 2 && isInstalledList(args[1]) && whole(args[1]) {
+					if c0, isC := x.Origin(args[0]).(*ssa.Const); isC && c0.IsNil() {
+						outer, okCopyList, okLen = cell, true, true
+					}
+				}
+			}
+		case *ssa.Call:
+			if args, isCopy := builtinCall(t, "copy"); isCopy && isInstalledList(args[1]) && whole(args[1]) {
+				if cell := x.Cell(args[0]); cell != nil && isListCell(cell) && whole(args[0]) {
+					outer, okCopyList, okLen = cell, true, madeWithLen(cell)
+				}
+			}
+		}
+	})
+	if outer == nil {
+		outer = listCells[0]
+		for _, l := range listCells {
+			if l.Pos() < outer.Pos() {
+				outer = l
+			}
 		}
 	}
 	// lookup of the old entry
@@ -311,6 +386,13 @@ func (c *Ctx) mergeModel(rule string, f *ssa.Function) *mergeSummary {
 	}
 	// insertions, deletions, replacements
 	var insertStores, replaceStores, rebuildStores, mapUpdates []ssa.Instruction
+	insertTargets := map[*ssa.Alloc]bool{}
+	type rebuilt struct {
+		cell *ssa.Alloc
+		pos  token.Pos
+		n    int
+	}
+	var rebuiltFrom []rebuilt
 	nIns, nDel, nRep, nReb := 0, 0, 0, 0
 	eachInstr(f, func(in ssa.Instruction) {
 		if !L.Blocks[in.Block()] {
@@ -384,7 +466,14 @@ func (c *Ctx) mergeModel(rule string, f *ssa.Function) *mergeSummary {
 				nIns++
 				ikey := fmt.Sprintf("%s#insert%d", key, nIns)
 				back, okBack := x.Origin(iargs[1]).(*ssa.Slice)
-				okShape := okBack && back.Low != nil && back.High == nil && x.Cell(back.X) == srcCell && cell == srcCell && x.sameValue(back.Low, front.High)
+				// front and back are cut from one slice variable at one position; the variable that
+				// receives the result is recorded: the index must be rebuilt from it (H3)
+				okShape := okBack && back.Low != nil && back.High == nil && x.Cell(back.X) == srcCell && x.sameValue(back.Low, front.High)
+				insertTargets[cell] = true
+				if os.Getenv("GVERIF_DEBUG") != "" {
+					fmt.Fprintf(os.Stderr, "insert %s: okBack=%v cell=%s@%s srcCell=%v backCell=%v same=%v\n", c.pos(in.Pos()), okBack, cell.Comment, c.pos(cell.Pos()), srcCell, x.Cell(back.X), okBack && x.sameValue(back.Low, front.High))
+					if srcCell != nil { fmt.Fprintf(os.Stderr, "   src=%s@%s\n", srcCell.Comment, c.pos(srcCell.Pos())) }
+				}
 				// ire = []*RuleEntity{v}
 				okIre := false
 				if sl, isSl := x.Origin(iargs[0]).(*ssa.Slice); isSl {
@@ -400,34 +489,103 @@ func (c *Ctx) mergeModel(rule string, f *ssa.Function) *mergeSummary {
 						}
 					}
 				}
-				// p from BinarySearch(s, v.Salience) on the same variable
-				okP := false
-				which := "?"
-				if ex, isEx := x.Origin(front.High).(*ssa.Extract); isEx {
-					if call, isCall := ex.Tuple.(*ssa.Call); isCall && calleeIs(call, pTool, "", "BinarySearch") {
-						if x.Cell(call.Call.Args[0]) == srcCell && vField(call.Call.Args[1], "Salience") {
-							// guard on mid == 0
-							midZero, known := false, false
-							for _, g := range x.GuardsOf(t.Block()) {
-								if bo, isB := g.Cond.(*ssa.BinOp); isB && bo.Op == token.EQL {
-									if e2, isE2 := x.Origin(bo.X).(*ssa.Extract); isE2 && e2.Tuple == ssa.Value(call) && e2.Index == 1 {
-										if k, isKc := constInt(bo.Y); isKc && k == 0 {
-											midZero, known = g.Pol, true
-										}
-									}
-								}
+				// p from BinarySearch(s, v.Salience) on the same variable: every value p can
+				// have here is the low result (only on paths where mid == 0 was found) or the
+				// mid result (only on paths where mid != 0), whether p is the result itself in
+				// two branches or a position variable assigned from them
+				okP := true
+				var whichs []string
+				pvs := x.PossibleValues(front.High)
+				if len(pvs) == 0 {
+					okP = false
+				}
+				for _, pv := range pvs {
+					ex, isEx := pv.V.(*ssa.Extract)
+					if pv.V == nil || pv.Outside || !isEx {
+						okP = false
+						continue
+					}
+					call, isCall := ex.Tuple.(*ssa.Call)
+					if !isCall || !calleeIs(call, pTool, "", "BinarySearch") || x.Cell(call.Call.Args[0]) != srcCell || !vField(call.Call.Args[1], "Salience") || ex.Index > 1 {
+						okP = false
+						continue
+					}
+					// the edges on which `mid == 0` holds / does not hold
+					zero, nonzero := map[edgeKey]bool{}, map[edgeKey]bool{}
+					for _, blk := range f.Blocks {
+						iff, isIf := blk.Instrs[len(blk.Instrs)-1].(*ssa.If)
+						if !isIf {
+							continue
+						}
+						cond, pol := iff.Cond, true
+						for {
+							u, isU := cond.(*ssa.UnOp)
+							if !isU || u.Op != token.NOT {
+								break
 							}
-							if known && midZero && ex.Index == 0 {
-								okP, which = true, "low (mid == 0)"
-							}
-							if known && !midZero && ex.Index == 1 {
-								okP, which = true, "mid (mid != 0)"
-							}
+							cond, pol = x.Origin(u.X), !pol
+						}
+						bo, isB := cond.(*ssa.BinOp)
+						if !isB || (bo.Op != token.EQL && bo.Op != token.NEQ) {
+							continue
+						}
+						isMid := func(v ssa.Value) bool {
+							e2, isE2 := x.Origin(v).(*ssa.Extract)
+							return isE2 && e2.Tuple == ssa.Value(call) && e2.Index == 1
+						}
+						isZero := func(v ssa.Value) bool {
+							k, isKc := constInt(x.Origin(v))
+							return isKc && k == 0
+						}
+						if !((isMid(bo.X) && isZero(bo.Y)) || (isMid(bo.Y) && isZero(bo.X))) {
+							continue
+						}
+						zeroWhenTrue := (bo.Op == token.EQL) == pol
+						if zeroWhenTrue {
+							zero[edgeKey{blk, 0}], nonzero[edgeKey{blk, 1}] = true, true
+						} else {
+							zero[edgeKey{blk, 1}], nonzero[edgeKey{blk, 0}] = true, true
 						}
 					}
+					need, which := zero, "low (mid == 0)"
+					if ex.Index == 1 {
+						need, which = nonzero, "mid (mid != 0)"
+					}
+					if len(need) == 0 {
+						okP = false
+						continue
+					}
+					// a path from the search to this insertion that carries this value without
+					// having taken a required edge
+					reCall := func(i2 ssa.Instruction) bool { return i2 == ssa.Instruction(call) }
+					bad := false
+					if pv.Store == nil {
+						_, bad = pathExistsEB(f, call, func(i2 ssa.Instruction) bool { return i2 == in }, need, reCall)
+					} else {
+						cellP := x.directCell(x.lastLoad(front.High))
+						_, r1 := pathExistsEB(f, call, func(i2 ssa.Instruction) bool { return i2 == ssa.Instruction(pv.Store) }, need, reCall)
+						_, r2 := pathExistsEB(f, pv.Store, func(i2 ssa.Instruction) bool { return i2 == in }, need, func(i2 ssa.Instruction) bool {
+							return reCall(i2) || (cellP != nil && x.isStoreTo(i2, cellP))
+						})
+						bad = r1 && r2
+					}
+					if bad {
+						okP = false
+					}
+					whichs = append(whichs, which)
+				}
+				sort.Strings(whichs)
+				which := strings.Join(whichs, " / ")
+				if which == "" {
+					which = "?"
 				}
 				insertStores = append(insertStores, in)
-				sum.add("insert v at %s of BinarySearch(s, v.Salience): shape=%v single=%v position=%v", which, okShape, okIre, okP)
+				for _, w := range whichs {
+					sum.add("insert v at %s of BinarySearch(s, v.Salience): shape=%v single=%v position=%v", w, okShape, okIre, okP)
+				}
+				if len(whichs) == 0 {
+					sum.add("insert v at ? of BinarySearch(s, v.Salience): shape=%v single=%v position=%v", okShape, okIre, okP)
+				}
 				c.Check(rule, ikey, okShape && okIre && okP, in.Pos(), "an insertion must be append(s[:p], append([v], s[p:]...)...) on one slice variable with p the binary-search position of v.Salience in that same variable (shape %v, inserts exactly v %v, position %v)", okShape, okIre, okP)
 				return
 			}
@@ -452,14 +610,11 @@ func (c *Ctx) mergeModel(rule string, f *ssa.Function) *mergeSummary {
 							return
 						}
 						// value = the range counter of the same loop
-						vc := x.Cell(mu.Value)
 						okV := false
-						if vc != nil && len(x.stores[vc]) >= 1 {
-							for _, st := range x.stores[vc] {
-								if il, isL := st.Val.(*ssa.UnOp); isL {
-									if a2, isA := il.X.(*ssa.Alloc); isA && a2.Comment == "rangeindex" && l2.Blocks[st.Block()] {
-										okV = true
-									}
+						if ri := x.readsRangeIndex(mu.Value); ri != nil {
+							for _, st := range x.stores[ri] {
+								if st.Block() == l2.Head {
+									okV = true
 								}
 							}
 						}
@@ -470,14 +625,18 @@ func (c *Ctx) mergeModel(rule string, f *ssa.Function) *mergeSummary {
 					})
 				}
 				rebuildStores = append(rebuildStores, in)
-				_ = ranged
+				rebuiltFrom = append(rebuiltFrom, rebuilt{ranged, in.Pos(), nReb})
 				sum.add("index rebuilt from the modified list ok=%v", okR)
 				c.Check(rule, fmt.Sprintf("%s#index-rebuild%d", key, nReb), okR, in.Pos(), "after a structural change the name->position index must be rebuilt by ranging the modified list (name -> position)")
 			}
 		}
 	})
-	sum.add("counts insert=%d delete=%d replace=%d rebuild=%d mapupdate=%d", nIns, nDel, nRep, nReb, len(mapUpdates))
-	c.Check(rule, key+"#step-counts", nIns == 4 && nDel == 1 && nRep == 1 && nReb == 2 && len(mapUpdates) == 2, f.Pos(), "merge steps found: %d insertions, %d deletion, %d replacement, %d index rebuilds, %d name-map updates (want 4/1/1/2/2)", nIns, nDel, nRep, nReb, len(mapUpdates))
+	for _, r := range rebuiltFrom {
+		if r.cell != nil {
+			c.Check(rule, fmt.Sprintf("%s#index-rebuild%d/from-inserted", key, r.n), insertTargets[r.cell], r.pos, "the index is rebuilt from %s, which is not the variable an insertion stored its result in", r.cell.Comment)
+		}
+	}
+	c.Check(rule, key+"#step-counts", nIns >= 1 && nDel >= 1 && nRep >= 1 && nReb >= 1 && len(mapUpdates) >= 1, f.Pos(), "merge steps found: %d insertions, %d deletion, %d replacement, %d index rebuilds, %d name-map updates (each step must occur)", nIns, nDel, nRep, nReb, len(mapUpdates))
 	in := func(set []ssa.Instruction) func(ssa.Instruction) bool {
 		return func(i ssa.Instruction) bool {
 			for _, s := range set {
@@ -511,7 +670,7 @@ func (c *Ctx) mergeModel(rule string, f *ssa.Function) *mergeSummary {
 	sum.add("index rebuilt after every insertion=%v", okH3)
 	c.Check(rule, key+"#index-after-insert", okH3, next.Pos(), "after every insertion the index must be rebuilt before the next new rule is merged")
 	// complete copies
-	okCopyMap, okCopyList := false, false
+	okCopyMap := false
 	eachInstr(f, func(i ssa.Instruction) {
 		if mu, ok := i.(*ssa.MapUpdate); ok && x.Cell(mu.Map) == mapCell && !L.Blocks[mu.Block()] {
 			if m, _, isR := x.rangedMap(mu.Value); isR {
@@ -522,27 +681,7 @@ func (c *Ctx) mergeModel(rule string, f *ssa.Function) *mergeSummary {
 				}
 			}
 		}
-		if st, ok := i.(*ssa.Store); ok && !L.Blocks[st.Block()] {
-			if ia, ok := st.Addr.(*ssa.IndexAddr); ok && x.Cell(ia.X) == outer {
-				if s, _, isR := x.rangedSlice(st.Val); isR {
-					if b, is := x.isFieldLoad(s, "KnowledgeContext", "SortRules"); is && !x.freshKc(b) {
-						_, lo, hi := x.sliceInterval(s)
-						okCopyList = lo.equal(constForm(0)) && hi.equal(x.symLen(s))
-					}
-				}
-			}
-		}
 	})
-	okLen := false
-	for _, st := range x.stores[outer] {
-		if ms, ok := x.Origin(st.Val).(*ssa.MakeSlice); ok {
-			if args, isLen := builtinCall(x.Origin(ms.Len), "len"); isLen {
-				if _, is := x.isFieldLoad(args[0], "KnowledgeContext", "SortRules"); is {
-					okLen = true
-				}
-			}
-		}
-	}
 	sum.add("complete copies map=%v list=%v len=%v", okCopyMap, okCopyList, okLen)
 	c.Check(rule, key+"#complete-copies", okCopyMap && okCopyList && okLen, f.Pos(), "the merge must start from complete copies of the installed name map and sorted list (map %v, list %v, length %v): all other rules stay untouched", okCopyMap, okCopyList, okLen)
 	// publication of exactly the three locals
@@ -602,7 +741,20 @@ func runC08(c *Ctx) {
 	}
 	c.Min("H2-H5-merge", 30)
 	if len(sums) == 2 {
-		a, b := strings.Join(sums[0].items, "\n"), strings.Join(sums[1].items, "\n")
+		// compared as sets of distinct steps: the number of places a step is written in may differ
+		norm := func(items []string) string {
+			seen := map[string]bool{}
+			var out []string
+			for _, it := range items {
+				if !seen[it] {
+					seen[it] = true
+					out = append(out, it)
+				}
+			}
+			sort.Strings(out)
+			return strings.Join(out, "\n")
+		}
+		a, b := norm(sums[0].items), norm(sums[1].items)
 		c.Check("H8-sibling-agreement", "BuildRuleWithIncremental~updateIncremental", a == b, 0, "the builder's and the pool's copy of the incremental merge must have the same step summary; they differ:\n-- builder --\n%s\n-- pool --\n%s", a, b)
 	}
 	c.ruleFullBuildAndRemoval("H6-full-build-and-removal")
@@ -728,58 +880,133 @@ func (c *Ctx) ruleFullBuildAndRemoval(rule string) {
 	}
 	if f := c.MustFn(rule, "builder", "RuleBuilder", "RemoveRules"); f != nil {
 		x := c.Index(f)
-		// keep entity iff no given name equals its name
-		// the keep-flag is the local bool tested where an old entry is copied into the new map (by role)
-		var flag *ssa.Alloc
+		// keep entity iff no given name equals its name. Decided on the control flow of one
+		// iteration of the loop over the installed rules, however the test is written (a flag
+		// cleared on a match, a `continue`, a helper that returns on the first match):
+		//  (a) once a given name has compared equal to the rule's name, the copy into the new
+		//      map is unreachable in that iteration;
+		//  (b) an iteration in which no comparison matched cannot end without the copy;
+		//  (c) the comparisons cover every given name: the loop over the names is left early
+		//      only on a match.
+		// Branches on boolean flags are followed with the flag's value on the path.
+		var mu *ssa.MapUpdate
+		var outerL *Loop
 		eachInstr(f, func(in ssa.Instruction) {
-			if mu, ok := in.(*ssa.MapUpdate); ok {
-				if _, _, isR := x.rangedMap(mu.Value); isR {
-					for _, g := range x.GuardsOf(mu.Block()) {
-						if cell := x.Cell(g.Cond); cell != nil && isBoolType(cell.Type().(*types.Pointer).Elem()) {
-							flag = cell
-						}
+			if m2, ok := in.(*ssa.MapUpdate); ok && mu == nil {
+				if src, l, isR := x.rangedMap(m2.Value); isR {
+					if _, isInst := x.isFieldLoad(src, "KnowledgeContext", "RuleEntities"); isInst {
+						mu, outerL = m2, l
 					}
 				}
 			}
 		})
 		okKeep := false
-		if flag != nil {
-			initTrue, clearOnMatch := false, false
-			for _, st := range x.stores[flag] {
-				b, isB := constBool(st.Val)
-				if !isB {
+		why := "no copy of the installed rules into a new map found"
+		if mu != nil && outerL != nil {
+			var next *ssa.Next
+			for _, in := range outerL.Head.Instrs {
+				if n, ok := in.(*ssa.Next); ok {
+					next = n
+				}
+			}
+			isName := func(v ssa.Value) bool {
+				ex, ok := x.Origin(v).(*ssa.Extract)
+				return ok && next != nil && ex.Tuple == ssa.Value(next) && ex.Index == 1
+			}
+			isGiven := func(v ssa.Value) (*Loop, bool) {
+				sl, l, ok := x.rangedSlice(v)
+				if !ok {
+					return nil, false
+				}
+				base, lo, hi := x.sliceInterval(sl)
+				_, isPar := x.Origin(base).(*ssa.Parameter)
+				return l, isPar && lo.equal(constForm(0)) && hi.equal(x.symLen(base))
+			}
+			match := map[edgeKey]bool{}
+			var matchBlocks []*ssa.BasicBlock
+			var inner []*Loop
+			for _, blk := range f.Blocks {
+				if !outerL.Blocks[blk] || len(blk.Instrs) == 0 {
 					continue
 				}
-				if b {
-					initTrue = true
+				iff, ok := blk.Instrs[len(blk.Instrs)-1].(*ssa.If)
+				if !ok {
+					continue
+				}
+				cond, pol := iff.Cond, true
+				for {
+					u, isU := cond.(*ssa.UnOp)
+					if !isU || u.Op != token.NOT {
+						break
+					}
+					cond, pol = x.Origin(u.X), !pol
+				}
+				bo, ok := cond.(*ssa.BinOp)
+				if !ok || (bo.Op != token.EQL && bo.Op != token.NEQ) {
+					continue
+				}
+				var l *Loop
+				if l1, g := isGiven(bo.X); g && isName(bo.Y) {
+					l = l1
+				} else if l2, g := isGiven(bo.Y); g && isName(bo.X) {
+					l = l2
 				} else {
-					for _, g := range x.GuardsOf(st.Block()) {
-						if bo, ok := g.Cond.(*ssa.BinOp); ok && bo.Op == token.EQL && g.Pol {
-							// delName == name
-							_, _, r1 := x.rangedSlice(bo.X)
-							_, _, r2 := x.rangedSlice(bo.Y)
-							if r1 || r2 {
-								clearOnMatch = true
+					continue
+				}
+				inner = append(inner, l)
+				if (bo.Op == token.EQL) == pol {
+					match[edgeKey{blk, 0}] = true
+					matchBlocks = append(matchBlocks, blk.Succs[0])
+				} else {
+					match[edgeKey{blk, 1}] = true
+					matchBlocks = append(matchBlocks, blk.Succs[1])
+				}
+			}
+			head := outerL.Head.Instrs[0]
+			atHead := func(i ssa.Instruction) bool { return i == head }
+			isMu := func(i ssa.Instruction) bool { return i == ssa.Instruction(mu) }
+			okA, okB, okC := len(match) > 0, len(match) > 0, len(match) > 0
+			for _, mb := range matchBlocks {
+				if _, reach := x.pathExistsFlagsAt(f, mb, 0, isMu, nil, atHead); reach {
+					okA = false
+				}
+			}
+			var bodyFirst ssa.Instruction
+			for _, sc := range outerL.Head.Succs {
+				if outerL.Blocks[sc] {
+					bodyFirst = sc.Instrs[0]
+				}
+			}
+			if bodyFirst == nil {
+				okB = false
+			} else if !isMu(bodyFirst) {
+				// start from the head so that the flags' assignments of this iteration are seen
+				if _, skip := x.pathExistsFlags(f, head, atHead, match, isMu); skip {
+					okB = false
+				}
+			}
+			for _, l := range inner {
+				for blk := range l.Blocks {
+					for k, sc := range blk.Succs {
+						if l.Blocks[sc] || blk == l.Head {
+							continue
+						}
+						dominatedByMatch := match[edgeKey{blk, k}]
+						for e := range match {
+							if x.edgeDominated(e.from, e.succ)[blk] {
+								dominatedByMatch = true
 							}
+						}
+						if !dominatedByMatch {
+							okC = false
 						}
 					}
 				}
 			}
-			kept := false
-			eachInstr(f, func(in ssa.Instruction) {
-				if mu, ok := in.(*ssa.MapUpdate); ok {
-					if _, _, isR := x.rangedMap(mu.Value); isR {
-						for _, g := range x.GuardsOf(mu.Block()) {
-							if x.Cell(g.Cond) == flag && g.Pol {
-								kept = true
-							}
-						}
-					}
-				}
-			})
-			okKeep = initTrue && clearOnMatch && kept
+			okKeep = okA && okB && okC
+			why = fmt.Sprintf("never copied after a match %v, always copied without a match %v, every given name compared %v", okA, okB, okC)
 		}
-		c.Check(rule, "RemoveRules#keeps-exactly-the-unnamed", okKeep, f.Pos(), "removal must keep a rule exactly when none of the given names equals its name")
+		c.Check(rule, "RemoveRules#keeps-exactly-the-unnamed", okKeep, f.Pos(), "removal must keep a rule exactly when none of the given names equals its name (%s)", why)
 		// fresh container with list from the kept map, sorted, indexed; installed last
 		okFresh := false
 		fields := map[string]bool{}
